@@ -13,6 +13,7 @@ import (
 	"os"
 	"runtime"
 	"runtime/debug"
+	"runtime/pprof"
 	"time"
 
 	"github.com/grindlemire/go-lucene/internal/zsimrt"
@@ -20,20 +21,21 @@ import (
 
 // ReplayFile is the on-disk form of one explicit execution.
 type ReplayFile struct {
-	Property  string            `json:"property"`
-	Base      uint64            `json:"base_seed"`
-	Run       uint64            `json:"run"`
-	Seed      uint64            `json:"seed"`
-	Build     string            `json:"build"` // "plain" | "race"
-	Scenario  *Scenario         `json:"scenario"`
-	Decisions []zsimrt.Decision `json:"decisions"`
-	Violation *Violation        `json:"violation,omitempty"`
-	History   *History          `json:"history,omitempty"`
-	Signature string            `json:"signature"`
-	RaceSig   string            `json:"race_signature,omitempty"`
-	Minimised bool              `json:"minimised"`
-	Note      string            `json:"note,omitempty"`
-	Repro     string            `json:"reproduce,omitempty"`
+	Property   string            `json:"property"`
+	Base       uint64            `json:"base_seed"`
+	Run        uint64            `json:"run"`
+	Seed       uint64            `json:"seed"`
+	Build      string            `json:"build"` // "plain" | "race"
+	Scenario   *Scenario         `json:"scenario"`
+	Decisions  []zsimrt.Decision `json:"decisions"`
+	Violation  *Violation        `json:"violation,omitempty"`
+	History    *History          `json:"history,omitempty"`
+	GiantEvery uint64            `json:"giant_every,omitempty"` // scenario generation parameter of the original run (history / seed replays regenerate scenarios)
+	Signature  string            `json:"signature"`
+	RaceSig    string            `json:"race_signature,omitempty"`
+	Minimised  bool              `json:"minimised"`
+	Note       string            `json:"note,omitempty"`
+	Repro      string            `json:"reproduce,omitempty"`
 }
 
 // History names the runs a worker process executed before a given run. Library
@@ -133,9 +135,19 @@ func main() {
 		maxViol   = flag.Int("max-viol", 3, "stop after this many violations")
 		dump      = flag.Uint64("dump", 0, "print the scenario of this run index and exit")
 		dumpOn    = flag.Bool("dump-on", false, "enable -dump")
+		giant     = flag.Uint64("giant-every", 0, "every n-th run index is a giant-input scenario (0: never)")
+		cpuprof   = flag.String("cpuprofile", "", "write a CPU profile (development)")
 		execs     = flag.Bool("execs", false, "emit the explicit execution (scenario + decisions) of every run")
 	)
 	flag.Parse()
+	if *cpuprof != "" {
+		f, err := os.Create(*cpuprof)
+		if err == nil {
+			pprof.StartCPUProfile(f)
+			defer pprof.StopCPUProfile()
+		}
+	}
+	giantEvery = *giant
 	debug.SetGCPercent(-1) // GC happens only where the scheduler injects it, and between runs
 	out := bufio.NewWriterSize(os.Stdout, 1<<16)
 	defer out.Flush()
@@ -198,7 +210,14 @@ func main() {
 			fmt.Fprintf(errw, "@@RUN %d %d\n", run, seed)
 			errw.Flush()
 		}
+		if sc.Giant {
+			debug.SetGCPercent(100) // giant inputs allocate gigabytes of intermediate strings: let the collector run
+		}
 		o := runScenario(sc, r, nil)
+		if sc.Giant {
+			debug.SetGCPercent(-1)
+			runtime.GC()
+		}
 		if !zsimrt.Instrumented {
 			// degraded mode: the Go scheduler picks the interleaving; repeat the scenario a few times
 			for rep := 0; rep < 7 && o.Viol == nil; rep++ {
@@ -349,6 +368,7 @@ func doReplay(path string, emit func(any), out *bufio.Writer) int {
 		fmt.Fprintln(os.Stderr, "zsim: bad replay file:", err)
 		return 2
 	}
+	giantEvery = rf.GiantEvery
 	if h := rf.History; h != nil && h.Count > 0 {
 		// re-create the library state the original process had accumulated
 		c := loadCorpus()
@@ -371,6 +391,9 @@ func doReplay(path string, emit func(any), out *bufio.Writer) int {
 		sc := genScenario(r, rf.Run, rf.Seed, rf.Scenario.Cold, c)
 		o = runScenario(sc, r, nil)
 	} else {
+		if rf.Scenario.Giant {
+			debug.SetGCPercent(100)
+		}
 		o = runScenario(rf.Scenario, nil, rf.Decisions)
 	}
 	if raceEnabled {
